@@ -14,6 +14,8 @@ use vp_core::{ensure, CheckResult, Ctx, Stats};
 struct Rec {
     id: usize,
     input_ptrs: Vec<usize>,
+    /// number of buffers each input presents
+    input_lens: Vec<usize>,
     own_ptr: usize,
 }
 
@@ -31,6 +33,7 @@ impl Node for ProbeNode {
         let rec = Rec {
             id: self.id,
             input_ptrs: inputs.iter().map(|i| i.buffers().as_ptr() as usize).collect(),
+            input_lens: inputs.iter().map(|i| i.buffers().len()).collect(),
             own_ptr: output.as_ptr() as usize,
         };
         self.log.borrow_mut().push(rec);
@@ -221,6 +224,11 @@ pub fn check(c: &Case, st: &mut Stats) -> CheckResult {
             }
         };
         for r in &recs {
+            // each input refers to ALL of that neighbour's output buffers, whatever the consumer's own channel count
+            let mut exp_pl: Vec<(usize, usize)> = edges.iter().filter(|&&(a, b)| b == r.id && a != r.id).map(|&(a, _)| (buf_ptr(a), nbufs(a))).collect();
+            let mut got_pl: Vec<(usize, usize)> = r.input_ptrs.iter().copied().zip(r.input_lens.iter().copied()).collect();
+            exp_pl.sort();
+            got_pl.sort();
             let mut exp_ptrs: Vec<usize> = edges.iter().filter(|&&(a, b)| b == r.id && a != r.id).map(|&(a, _)| buf_ptr(a)).collect();
             let mut got_ptrs = r.input_ptrs.clone();
             exp_ptrs.sort();
@@ -229,6 +237,11 @@ pub fn check(c: &Case, st: &mut Stats) -> CheckResult {
                 got_ptrs == exp_ptrs,
                 "call {} node {}: received {} inputs, expected one per incoming edge from a different node = {} (edges {:?}); pointers {:?} vs {:?}",
                 call, r.id, got_ptrs.len(), exp_ptrs.len(), edges, got_ptrs, exp_ptrs
+            );
+            ensure!(
+                got_pl == exp_pl,
+                "call {} node {} (which owns {} buffers): its inputs present (buffers pointer, buffer count) = {:?}, but the neighbours' output buffers are {:?}",
+                call, r.id, nbufs(r.id), got_pl, exp_pl
             );
             ensure!(r.own_ptr == buf_ptr(r.id), "call {} node {}: output slice is not the node's own buffers", call, r.id);
             if nbufs(r.id) > 0 {
@@ -301,6 +314,8 @@ pub fn check(c: &Case, st: &mut Stats) -> CheckResult {
     st.class_if(c.stable && c.added > 0 && !c.removed.is_empty(), "slot reuse after removal");
     st.class_if(c.outputs.len() > 1, "repeated process calls on one processor");
     st.class_if((0..total).any(|l| nbufs(l) == 0), "node without output buffers");
+    let max_indeg = live_v.iter().map(|v| edges.iter().filter(|&&(a, b)| b == *v && a != *v).count()).max().unwrap_or(0);
+    st.class_if(max_indeg > 16 && max_indeg > c.proc_capacity, "in-degree above 16 and above the processor's capacity hint");
     Ok(())
 }
 
@@ -328,7 +343,7 @@ pub fn run(ctx: &mut Ctx) {
     ctx.set_rule(
         "cases are (container Graph | StableGraph, node count, multiset of directed edges incl. self-loops and parallel edges, StableGraph: nodes removed after construction / nodes added afterwards (slot reuse) / late edges, \
          sequence of output nodes for consecutive process calls on one processor, processor capacity); enumerated: every multigraph on up to 3 nodes with multiplicity 0..2 on each of the n^2 ordered pairs x every output node, \
-         every digraph with self-loops on 4 nodes x every output node (thorough: 5 nodes without self-loops), every single-node removal of every 3-node stable multigraph; random: up to 14 nodes; \
+         every digraph with self-loops on 4 nodes x every output node (thorough: 5 nodes without self-loops), every single-node removal of every 3-node stable multigraph; random: up to 14 nodes, and mixers with 17..=80 incoming edges from up to 39 sources on a processor created with capacity 0..=5; \
          non-trivial: cycle, self-loop, parallel edge, a node not reaching the output, a diamond, or a vacant slot",
     );
     ctx.assume("nodes are instrumented (identity, input buffer pointers, own buffer pointer per invocation); expected set = reverse reachability over the harness's own edge list; the order of a node's inputs is unspecified and not asserted; values are small integers so that evaluation order cannot matter");
@@ -410,4 +425,13 @@ pub fn run(ctx: &mut Ctx) {
         );
     }
     ctx.prop("random-graphs", ctx.pick(20_000, 300_000), case_strategy(14), check);
+    // (c) wide fan-in: far more incoming edges (parallel ones included) than nodes or than the processor's capacity hint
+    ctx.require_class("in-degree above 16 and above the processor's capacity hint");
+    let wide = (2usize..=40, 17usize..=80, 0usize..6, any::<bool>(), proptest::collection::vec(0usize..=3, 0..4)).prop_map(|(n, fan, proc_capacity, stable, bufs)| {
+        // node n-1 is the mixer; sources 0..n-1 feed it round-robin (parallel edges once fan > n - 1), plus one self-loop
+        let mut edges: Vec<(usize, usize)> = (0..fan).map(|k| (k % (n - 1), n - 1)).collect();
+        edges.push((n - 1, n - 1));
+        Case { stable, n, edges, removed: vec![], added: 0, late_edges: vec![], outputs: vec![n - 1, n - 1], proc_capacity, bufs }
+    });
+    ctx.prop("wide-fan-in", ctx.pick(2_000, 20_000), wide, check);
 }
